@@ -95,6 +95,15 @@ func genYXPCase(r *Rng) Case {
 	if r.Chance(40) {
 		ex["m.path"] = mk("m", true)
 	}
+	if r.Chance(30) { // on the key leaf of a list
+		ex["m.keywhen"] = mk("m", false)
+	}
+	if r.Chance(30) {
+		ex["m.keymust"] = mk("m", false)
+	}
+	if r.Chance(30) { // on a uses that supplies the key leaf of a list
+		ex["m.kuwhen"] = mk("m", false)
+	}
 	if r.Chance(50) {
 		ex["a2.must"] = mk("a2", false)
 	}
@@ -136,10 +145,12 @@ func yxpTexts(c Case) []string {
 	bm := "module b { namespace \"urn:b\"; prefix b; import c { prefix x; }\n" +
 		"  typedef bt { " + typeOr("b.tpath") + " }\n" +
 		"  grouping bg {\n    leaf bl { type string;" + get("b.must", "must") + get("b.must2", "must") + get("b.when", "when") + " }\n" +
-		"    leaf br { " + typeOr("b.path") + " }\n  }\n}\n"
+		"    leaf br { " + typeOr("b.path") + " }\n  }\n  grouping kg { leaf bk { type string; } }\n}\n"
 	mm := "module m { namespace \"urn:m\"; prefix m; import b { prefix b; } import c { prefix y; } import d { prefix x; }\n" +
 		"  container mtop {\n    uses b:bg" + usesBody(get("m.useswhen", "when")+refineBody(get("m.refmust", "must"))) + "\n    leaf ml { type string;" + get("m.must", "must") + get("m.must2", "must") + " }\n" +
-		"    leaf mt { type b:bt; }\n    leaf mr { " + typeOr("m.path") + " }\n  }\n}\n"
+		"    leaf mt { type b:bt; }\n    leaf mr { " + typeOr("m.path") + " }\n" +
+		"    list mlist { key mk; leaf mk { type string;" + get("m.keymust", "must") + get("m.keywhen", "when") + " } leaf mv { type string; } }\n" +
+		"    list blist { key bk; uses b:kg" + usesBody(get("m.kuwhen", "when")) + " }\n  }\n}\n"
 	am := "module a2 { namespace \"urn:a2\"; prefix a2; import m { prefix m; } import c { prefix z; }\n" +
 		"  augment /m:mtop {" + get("a2.augwhen", "when") + "\n    leaf al { type string;" + get("a2.must", "must") + get("a2.must2", "must") + get("a2.when", "when") + " }\n  }\n}\n"
 	return []string{cm, dm, bm, mm, am}
@@ -199,7 +210,7 @@ func runYXP(c Case) string {
 				named = "names-expression"
 			}
 		}
-		for _, n := range []string{"leaf bl", "leaf br", "leaf ml", "leaf mt", "leaf mr", "leaf al", "typedef bt", "type leafref", "must ", "when ", "path "} {
+		for _, n := range []string{"leaf bl", "leaf br", "leaf ml", "leaf mt", "leaf mr", "leaf al", "leaf mk", "leaf bk", "uses b:kg", "typedef bt", "type leafref", "must ", "when ", "path "} {
 			if strings.Contains(s, ": "+n) {
 				named += "+statement"
 				break
@@ -209,8 +220,19 @@ func runYXP(c Case) string {
 	}
 	top := ms.Child("mtop")
 	var out []string
-	for _, ln := range []string{"bl", "br", "ml", "mt", "mr", "al"} {
-		n := top.Child(ln)
+	for _, ln := range []string{"bl", "br", "ml", "mt", "mr", "al", "mlist/mk", "blist/bk"} {
+		n := top
+		for _, seg := range strings.Split(ln, "/") {
+			if _, isList := n.(schema.List); isList && n != nil {
+				n = n.Child("x") // the entry
+			}
+			if n != nil {
+				n = n.Child(seg)
+			}
+		}
+		if i := strings.LastIndex(ln, "/"); i >= 0 {
+			ln = ln[i+1:]
+		}
 		if n == nil {
 			out = append(out, ln+":absent")
 			continue
